@@ -5,6 +5,7 @@ package main
 
 import (
 	"fmt"
+	"go/ast"
 	"go/constant"
 	"go/token"
 	"go/types"
@@ -208,6 +209,12 @@ func c09GateCut(w *World, fn *ssa.Function, sel EdgeSel, depth int) gateCut {
 				if c == nil {
 					continue
 				}
+				// the forwarded call's own "no error" is an accepted fact: the exit succeeds only if that fact holds
+				if osel("EQ("+descTailErr(c)+",nil)", nil, true) {
+					gc.tails[c] = true
+					gc.n++
+					continue
+				}
 				g := staticCallee(c)
 				if g == nil || g.Blocks == nil || !w.IsProductFn(g) || len(c.Call.Args) != len(g.Params) {
 					continue
@@ -364,59 +371,84 @@ func c09VisitCalls(w *World, fn *ssa.Function, fr c09Frame, depth int, visit fun
 // is required afterwards (need reports whether the fact "this call returned no error", in the frame of fn, is among
 // the must-pass facts of the region under analysis).
 func c09EffectBlocks(w *World, fn *ssa.Function, fr c09Frame, pred func(call *ssa.Call, fr c09Frame) bool, need func(label string) bool, depth int) map[*ssa.BasicBlock]bool {
+	return c09EffectBlocksI(w, fn, fr, func(in ssa.Instruction, fr c09Frame) bool {
+		call, ok := in.(*ssa.Call)
+		return ok && pred(call, fr)
+	}, need, depth)
+}
+
+// c09EffectBlocksI is c09EffectBlocks for an effect that may be any instruction (a call, a map update).
+func c09EffectBlocksI(w *World, fn *ssa.Function, fr c09Frame, pred func(in ssa.Instruction, fr c09Frame) bool, need func(label string) bool, depth int) map[*ssa.BasicBlock]bool {
 	out := map[*ssa.BasicBlock]bool{}
-	for _, ci := range allCalls(fn) {
-		call, ok := ci.(*ssa.Call)
-		if !ok {
-			continue
-		}
-		if pred(call, fr) {
-			out[call.Block()] = true
-			continue
-		}
-		g := c09Helper(w, call)
-		if depth <= 0 || g == nil {
-			continue
-		}
-		r := g.Signature.Results()
-		if r.Len() == 0 || !isErrorType(r.At(r.Len()-1).Type()) {
-			continue
-		}
-		if need != nil && !need("EQ("+descTailErr(call)+",nil)") {
-			continue
-		}
-		// inside the helper every success exit must lie behind the effect; its own helpers are on the way to its
-		// success exits only if their success edge is must-pass there
-		gs := w.Summarize(g, Mode{Kind: mErr})
-		gneed := func(l string) bool {
-			if len(gs.Exits) == 0 {
-				return false
+	for _, blk := range fn.Blocks {
+		for _, in := range blk.Instrs {
+			if pred(in, fr) {
+				out[blk] = true
+				continue
 			}
-			for _, ex := range gs.Exits {
-				if !labelHas(ex.Checked, l) {
+			call, ok := in.(*ssa.Call)
+			if !ok {
+				continue
+			}
+			g := c09Helper(w, call)
+			if depth <= 0 || g == nil {
+				continue
+			}
+			r := g.Signature.Results()
+			if r.Len() == 0 || !isErrorType(r.At(r.Len()-1).Type()) {
+				continue
+			}
+			if need != nil && !need("EQ("+descTailErr(call)+",nil)") {
+				continue
+			}
+			// inside the helper every success exit must lie behind the effect; its own helpers are on the way to its
+			// success exits only if their success edge is must-pass there
+			gs := w.Summarize(g, Mode{Kind: mErr})
+			gneed := func(l string) bool {
+				if len(gs.Exits) == 0 {
 					return false
 				}
+				for _, ex := range gs.Exits {
+					if !labelHas(ex.Checked, l) {
+						return false
+					}
+				}
+				return true
 			}
-			return true
-		}
-		inner := c09EffectBlocks(w, g, fr.enter(call), pred, gneed, depth-1)
-		if len(inner) == 0 {
-			continue
-		}
-		gi := w.Info(g)
-		cut := map[edgeKey]bool{}
-		entryHas := false
-		for b := range inner {
-			if b.Index == 0 {
-				entryHas = true
+			inner := c09EffectBlocksI(w, g, fr.enter(call), pred, gneed, depth-1)
+			if len(inner) == 0 {
+				continue
 			}
-			cutInto(gi, b, cut)
-		}
-		if entryHas || gi.successWitness(Mode{Kind: mErr}, entryState(), cut) == nil {
-			out[call.Block()] = true
+			gi := w.Info(g)
+			cut := map[edgeKey]bool{}
+			entryHas := false
+			for b := range inner {
+				if b.Index == 0 {
+					entryHas = true
+				}
+				cutInto(gi, b, cut)
+			}
+			if entryHas || gi.successWitness(Mode{Kind: mErr}, entryState(), cut) == nil {
+				out[blk] = true
+			}
 		}
 	}
 	return out
+}
+
+// c09VisitFrames visits fn and, through calls of module helpers, their callees, each with its frame.
+func c09VisitFrames(w *World, fn *ssa.Function, fr c09Frame, depth int, visit func(f *ssa.Function, fr c09Frame)) {
+	visit(fn, fr)
+	if depth <= 0 {
+		return
+	}
+	for _, ci := range allCalls(fn) {
+		if call, ok := ci.(*ssa.Call); ok {
+			if g := c09Helper(w, call); g != nil {
+				c09VisitFrames(w, g, fr.enter(call), depth-1, visit)
+			}
+		}
+	}
 }
 
 // c09ListSources walks a slice value back through phis and appends: the appends that feed it, and whether nothing
@@ -875,4 +907,330 @@ func c09ByteHook(w *World, ip *Interp, name ssa.Value, idx ssa.Value, k int64, d
 		}
 		return AVal{}, false
 	}
+}
+
+// ---- the element of the current iteration, held directly or in a read-only local copy ------------------------------
+
+// c09OnlyRead: the address (or pointer) v is only ever read through: loaded, its fields / elements addressed and read in
+// turn, or handed to module functions that in turn only read through the corresponding parameter. Any store through it,
+// any store of it, any capture, any other use answers false.
+// (A cycle of mutually recursive readers is read-only if none of them writes: the assumption made for a function under
+// analysis is only ever discharged by finding no write.)
+func c09OnlyRead(w *World, v ssa.Value, whole *ssa.Store, depth int, busy map[ssa.Value]bool) bool {
+	if depth > 6 {
+		return false
+	}
+	if busy[v] {
+		return true
+	}
+	busy[v] = true
+	refs := v.Referrers()
+	if refs == nil {
+		return true
+	}
+	for _, r := range *refs {
+		switch x := r.(type) {
+		case *ssa.DebugRef:
+		case *ssa.UnOp:
+			if x.Op != token.MUL {
+				return false
+			}
+		case *ssa.FieldAddr:
+			if !c09OnlyRead(w, x, nil, depth+1, busy) {
+				return false
+			}
+		case *ssa.IndexAddr:
+			if x.X != v || !c09OnlyRead(w, x, nil, depth+1, busy) {
+				return false
+			}
+		case *ssa.Store:
+			if x != whole {
+				return false
+			}
+		case *ssa.Call:
+			g := c09Helper(w, x)
+			if g == nil || x.Call.Value == v {
+				return false
+			}
+			for i, a := range x.Call.Args {
+				if a == v && !c09OnlyRead(w, g.Params[i], nil, depth+1, busy) {
+					return false
+				}
+			}
+		default:
+			// rendered into a log line or an error text: not a use (rules_util.go: onlyFormatted)
+			if !onlyFormatted(r, 0) {
+				return false
+			}
+		}
+	}
+	return true
+}
+
+// c09ReadOnlyCopy: the local variable a holds one value for its whole life — it is written by exactly one Store of a whole
+// value and is otherwise only read (c09OnlyRead), also by the module functions its address is handed to (a method with
+// a pointer receiver called on a loop variable makes the variable addressable; that does not make it mutable).
+// Returns the store. Every read of (a field of) the variable that the store dominates yields (that field of) the value stored.
+func c09ReadOnlyCopy(w *World, a *ssa.Alloc) *ssa.Store {
+	refs := a.Referrers()
+	if refs == nil {
+		return nil
+	}
+	var st *ssa.Store
+	for _, r := range *refs {
+		if s, ok := r.(*ssa.Store); ok {
+			if s.Addr != ssa.Value(a) || s.Val == ssa.Value(a) || st != nil {
+				return nil
+			}
+			st = s
+		}
+	}
+	if st == nil || !c09OnlyRead(w, a, st, 0, map[ssa.Value]bool{}) {
+		return nil
+	}
+	// no read before the store
+	for _, r := range *refs {
+		if r == ssa.Instruction(st) || r.Block() == nil {
+			continue
+		}
+		if _, isDbg := r.(*ssa.DebugRef); isDbg {
+			continue
+		}
+		if r.Block() == st.Block() {
+			if instrIndex(r) < instrIndex(st) {
+				return nil
+			}
+		} else if !st.Block().Dominates(r.Block()) {
+			return nil
+		}
+	}
+	return st
+}
+
+// c09ElemPath: v is (a field path into) the element of the current iteration of the loop l — the list element at the
+// loop's own index, read in place (value or pointer to the element) or through a read-only local copy of it that is
+// made in the loop (c09ReadOnlyCopy), whose rendering no other local of the functions in reach shares. Returns the
+// field path (".RegistryScopes").
+// Soundness: the facts the rules state about "the scopes of the statement" are stated on renderings; a rendering that
+// goes through a local stands for the element only if the local holds the element whenever it is read.
+func c09ElemPath(w *World, fn *ssa.Function, v ssa.Value, l *loopRef) (string, bool) {
+	if l == nil || l.Idx == nil {
+		return "", false
+	}
+	in := loopBlocks(l.Header)
+	var walk func(v ssa.Value, depth int) (string, bool)
+	walk = func(v ssa.Value, depth int) (string, bool) {
+		if depth > 8 {
+			return "", false
+		}
+		switch x := v.(type) {
+		case *ssa.UnOp:
+			if x.Op == token.MUL {
+				return walk(x.X, depth+1)
+			}
+		case *ssa.FieldAddr:
+			p, ok := walk(x.X, depth+1)
+			return p + "." + fieldName(x.X.Type(), x.Field), ok
+		case *ssa.Field:
+			p, ok := walk(x.X, depth+1)
+			return p + "." + fieldName(x.X.Type(), x.Field), ok
+		case *ssa.IndexAddr:
+			return "", x.Index == l.Idx && (x.X == l.X || desc(x.X) == desc(l.X))
+		case *ssa.Index:
+			return "", x.Index == l.Idx && (x.X == l.X || desc(x.X) == desc(l.X))
+		case *ssa.Alloc:
+			st := c09ReadOnlyCopy(w, x)
+			if st == nil || st.Block() == nil || !in[st.Block().Index] || c09SameRendering(w, fn, x) != 1 {
+				return "", false
+			}
+			return walk(st.Val, depth+1)
+		case *ssa.Call:
+			// an accessor: a module function that hands back, on every exit, one and the same field path of one parameter
+			if g := c09Helper(w, x); g != nil {
+				if k, p, ok := c09Accessor(g); ok {
+					q, ok := walk(x.Call.Args[k], depth+1)
+					return q + p, ok
+				}
+			}
+		}
+		return "", false
+	}
+	return walk(v, 0)
+}
+
+// c09Accessor: g has one result and every return hands back the same field path of the same parameter (read through
+// loads and field selections only): g(…, x, …) is x<path>.
+func c09Accessor(g *ssa.Function) (int, string, bool) {
+	if g.Signature.Results().Len() != 1 {
+		return 0, "", false
+	}
+	var walk func(v ssa.Value, depth int) (int, string, bool)
+	walk = func(v ssa.Value, depth int) (int, string, bool) {
+		if depth > 6 {
+			return 0, "", false
+		}
+		switch x := v.(type) {
+		case *ssa.Parameter:
+			for i, p := range g.Params {
+				if p == x {
+					return i, "", true
+				}
+			}
+		case *ssa.UnOp:
+			if x.Op == token.MUL {
+				return walk(x.X, depth+1)
+			}
+		case *ssa.FieldAddr:
+			k, p, ok := walk(x.X, depth+1)
+			return k, p + "." + fieldName(x.X.Type(), x.Field), ok
+		case *ssa.Field:
+			k, p, ok := walk(x.X, depth+1)
+			return k, p + "." + fieldName(x.X.Type(), x.Field), ok
+		}
+		return 0, "", false
+	}
+	K, P, n := -1, "", 0
+	for _, b := range g.Blocks {
+		r, ok := blockTerm(b).(*ssa.Return)
+		if !ok {
+			continue
+		}
+		if len(r.Results) != 1 {
+			return 0, "", false
+		}
+		k, p, ok := walk(r.Results[0], 0)
+		if !ok || (n > 0 && (k != K || p != P)) {
+			return 0, "", false
+		}
+		K, P = k, p
+		n++
+	}
+	return K, P, n > 0
+}
+
+// c09SameRendering counts the locals of fn and of the module helpers in its reach that are rendered like a.
+func c09SameRendering(w *World, fn *ssa.Function, a *ssa.Alloc) int {
+	d := desc(a)
+	n := 0
+	seen := map[*ssa.Function]bool{}
+	var visit func(f *ssa.Function, depth int)
+	visit = func(f *ssa.Function, depth int) {
+		if seen[f] {
+			return
+		}
+		seen[f] = true
+		for _, b := range f.Blocks {
+			for _, in := range b.Instrs {
+				switch x := in.(type) {
+				case *ssa.Alloc:
+					if desc(x) == d {
+						n++
+					}
+				case *ssa.Call:
+					if g := c09Helper(w, x); g != nil && depth > 0 {
+						visit(g, depth-1)
+					}
+				}
+			}
+		}
+	}
+	visit(fn, c09Depth)
+	return n
+}
+
+// c09StoreTypeConstants: the string constants the exported list truststore.Types is initialised with (a composite literal
+// of constants). A comparison of the type prefix with one of them is a membership test at least as strict as the list.
+func c09StoreTypeConstants(w *World) []string {
+	e, p := w.pkgVarInit("verifier/truststore", "Types")
+	cl, ok := e.(*ast.CompositeLit)
+	if !ok || p == nil {
+		return nil
+	}
+	var out []string
+	for _, el := range cl.Elts {
+		k, ok := constOfExpr(p, el)
+		if !ok {
+			return nil
+		}
+		out = append(out, k)
+	}
+	return out
+}
+
+// c09ParseCall splits the rendering "call:<function>(<args>)" of a call into the function's printed name (which may
+// itself start with a parenthesised receiver type) and the top-level arguments.
+func c09ParseCall(s string) (string, []string, bool) {
+	if !strings.HasPrefix(s, "call:") || !strings.HasSuffix(s, ")") {
+		return "", nil, false
+	}
+	s = strings.TrimPrefix(s, "call:")
+	i := 0
+	if strings.HasPrefix(s, "(") {
+		// receiver type
+		depth := 0
+		for k := 0; k < len(s); k++ {
+			if s[k] == '(' {
+				depth++
+			} else if s[k] == ')' {
+				depth--
+				if depth == 0 {
+					i = k + 1
+					break
+				}
+			}
+		}
+		if i == 0 {
+			return "", nil, false
+		}
+	}
+	j := strings.IndexByte(s[i:], '(')
+	if j < 0 {
+		return "", nil, false
+	}
+	name := s[:i+j]
+	_, args := splitTopArgs("X" + s[i+j:])
+	return name, args, true
+}
+
+// c09IterStatement: the rendering st designates the statement of the current iteration of the statement loop l of fn:
+// the list element at the loop's own index, or a local of fn that is a read-only copy of that element (c09ElemPath).
+func c09IterStatement(w *World, fn *ssa.Function, l *loopRef, st string) bool {
+	if l == nil || l.Idx == nil {
+		return false
+	}
+	if st == desc(l.X)+"["+descIndex(l.Idx)+"]" {
+		return true
+	}
+	in := loopBlocks(l.Header)
+	for bi := range in {
+		for _, ins := range fn.Blocks[bi].Instrs {
+			if al, ok := ins.(*ssa.Alloc); ok && desc(al) == st {
+				if p, ok := c09ElemPath(w, fn, al, l); ok && p == "" {
+					return true
+				}
+			}
+		}
+	}
+	return false
+}
+
+// c09SameMaps counts the maps made in fn and in the module helpers in its reach that are rendered like m.
+func c09SameMaps(w *World, fn *ssa.Function, m ssa.Value) int {
+	d := desc(m)
+	n := 0
+	seen := map[*ssa.Function]bool{}
+	c09VisitFrames(w, fn, c09TopFrame(), c09Depth, func(f *ssa.Function, _ c09Frame) {
+		if seen[f] {
+			return
+		}
+		seen[f] = true
+		for _, b := range f.Blocks {
+			for _, in := range b.Instrs {
+				if mm, ok := in.(*ssa.MakeMap); ok && desc(mm) == d {
+					n++
+				}
+			}
+		}
+	})
+	return n
 }
